@@ -332,12 +332,17 @@ func BuildInstr(n *wire.N, h Hist) (of.Instruction, error) {
 	case "instr_meter":
 		// no constructor: built as a literal of the exported type
 		return &of.InstrMeter{InstrHeader: of.InstrHeader{Type: of.InstrType_METER, Length: 8}, MeterId: uint32(u(n, "MeterId"))}, nil
-	case "instr_write_actions", "instr_apply_actions":
+	case "instr_write_actions", "instr_apply_actions", "instr_clear_actions":
 		var in *of.InstrActions
-		if n.K == "instr_write_actions" {
+		switch n.K {
+		case "instr_write_actions":
 			in = of.NewInstrWriteActions()
-		} else {
+		case "instr_apply_actions":
 			in = of.NewInstrApplyActions()
+		default:
+			// no constructor: the action-list instruction type with the clear-actions code
+			in = of.NewInstrWriteActions()
+			in.Type = of.InstrType_CLEAR_ACTIONS
 		}
 		if h.LateGrow {
 			// every conntrack action that is followed by another action is attached bare, receives
